@@ -472,9 +472,10 @@ func c01CommitGuard(c *Check, r *RuleCtx, commitPts []Pt) {
 		c.Hold("R1", "deliver:commit-guard", r.Pos(commitPts[0]), false, "undecided: no 'all failed' flag computed from the recorded errors of the accepted recipients")
 		return
 	}
-	// every assignment to the flag is a constant; exactly the flip has the "success seen" value
+	// every assignment to the flag is a constant; exactly the flip has the "success seen" value, the initialisation
+	// the opposite one (otherwise the flag says nothing)
 	badAssign := ""
-	nAssign := 0
+	nAssign, nInit := 0, 0
 	ast.Inspect(r.FI.Decl.Body, func(n ast.Node) bool {
 		if as, ok := n.(*ast.AssignStmt); ok {
 			for i, l := range as.Lhs {
@@ -483,12 +484,17 @@ func c01CommitGuard(c *Check, r *RuleCtx, commitPts []Pt) {
 					tv, ok := info.Types[as.Rhs[i]]
 					if !ok || tv.Value == nil || tv.Value.Kind() != constant.Bool {
 						badAssign = "the flag is assigned a non-constant value"
+					} else if constant.BoolVal(tv.Value) != flipped {
+						nInit++
 					}
 				}
 			}
 		}
 		return true
 	})
+	if nInit == 0 && badAssign == "" {
+		badAssign = "the flag is initialised with the value it gets when a recipient succeeded: it cannot tell 'all failed' from 'some succeeded'"
+	}
 	// Commit must be unreachable in the world "no success was seen" (the flag still has its initial value)
 	avoid := r.F.World(func(atom ast.Expr) (bool, bool) {
 		if objOf(info, atom) == flag {
@@ -502,6 +508,43 @@ func c01CommitGuard(c *Check, r *RuleCtx, commitPts []Pt) {
 		msg = "Commit is reachable although every accepted recipient failed (a message that failed permanently for all would be committed): " + r.F.Describe(p)
 	}
 	c.Hold("R1", "deliver:commit-guard", r.Pos(commitPts[0]), !f && badAssign == "" && nAssign >= 2, msg)
+	// the converse: once some accepted recipient has no recorded error the delivery is never aborted (an aborted
+	// delivery whose recipients carry no error counts as delivered: the message would be lost)
+	var accepted types.Object
+	for _, l := range elemLoops(info, r.FI.Decl.Body, func(e ast.Expr) bool { return true }) {
+		l := l
+		ast.Inspect(l.Body, func(x ast.Node) bool {
+			if as, ok := x.(*ast.AssignStmt); ok && len(as.Lhs) == 1 && len(as.Rhs) == 1 {
+				if o, args := appendTarget(info, as.Lhs[0], as.Rhs[0]); o != nil && len(args) == 1 && l.IsElem(args[0]) {
+					for _, call := range callsIn(l.Body) {
+						if methodName(call) == "AddRcpt" {
+							accepted = o
+						}
+					}
+				}
+			}
+			return true
+		})
+	}
+	aborts := r.F.Find(func(n ast.Node) bool {
+		for _, call := range callsAt(n) {
+			if methodName(call) == "Abort" {
+				return true
+			}
+		}
+		return false
+	})
+	succWorld := r.F.World(func(atom ast.Expr) (bool, bool) {
+		if objOf(info, atom) == flag {
+			return flipped, true
+		}
+		if sx, ok := lenZeroEdge(info, atom); ok && accepted != nil && mentions(info, atom, accepted) {
+			return sx != 0, true // some recipient was accepted
+		}
+		return false, false
+	})
+	pa, fa := r.F.Reach(Query{From: r.Entry(), Inclusive: true, Target: isPt(aborts), AvoidEdge: succWorld})
+	c.Hold("R1", "deliver:abort-only-if-nothing-succeeded", r.FI.Decl.Pos(), !fa && len(aborts) > 0 && accepted != nil, "the downstream delivery can be aborted although an accepted recipient has no recorded error (it would count as delivered while nothing was committed – the message is lost): "+r.F.Describe(pa))
 }
 
 func c01TryDelivery(c *Check) {
@@ -716,6 +759,48 @@ func c01TryDelivery(c *Check) {
 		msg = "with max_tries = 2 a recipient that failed temporarily on its first attempt is given up (one attempt too few): " + r.F.Describe(pB)
 	}
 	c.Hold("R4", "tryDelivery:attempt-bound", lookup.Pos(), msg == "", msg)
+	// (5) the bookkeeping the bound and the report rest on: a re-queued recipient's attempt counter is incremented in
+	// that iteration; a recipient reported as failed has its last error stored for the report
+	incr := func(pt Pt) bool {
+		found := false
+		inspectNoLit(pt.Node(), func(x ast.Node) bool {
+			switch s := x.(type) {
+			case *ast.IncDecStmt:
+				if ix, ok := ast.Unparen(s.X).(*ast.IndexExpr); ok && s.Tok == token.INC && isField(info, ix.X, "QueueMetadata", "TriesCount") && loop.IsElem(ix.Index) {
+					found = true
+				}
+			case *ast.AssignStmt:
+				for _, l := range s.Lhs {
+					if ix, ok := ast.Unparen(l).(*ast.IndexExpr); ok && isField(info, ix.X, "QueueMetadata", "TriesCount") && loop.IsElem(ix.Index) && (s.Tok == token.ADD_ASSIGN || s.Tok == token.ASSIGN) {
+						found = true
+					}
+				}
+			}
+			return true
+		})
+		return found
+	}
+	storesErr := func(pt Pt) bool {
+		return nodeAssigns(pt.Node(), func(l, _ ast.Expr) bool {
+			ix, ok := ast.Unparen(l).(*ast.IndexExpr)
+			return ok && isField(info, ix.X, "QueueMetadata", "RcptErrs") && loop.IsElem(ix.Index)
+		})
+	}
+	bk := ""
+	for _, a := range retryPts {
+		// every iteration that re-queues passes the increment (before or after the append)
+		if p1, f1 := r.F.Reach(Query{From: r.F.LoopBodyStart(loop), Inclusive: true, Target: func(q Pt) bool { return q == a }, Avoid: orPt(incr, iterEnd)}); f1 {
+			if p2, f2 := r.F.Reach(Query{From: []Pt{a}, Target: iterEnd, Avoid: incr}); f2 {
+				bk = "a recipient is re-queued without its attempt counter being incremented (it would be retried for ever, the configured maximum never applies): " + r.F.Describe(append(p1, p2...))
+			}
+		}
+	}
+	for _, a := range failPts {
+		if p1, f1 := r.F.Reach(Query{From: r.F.LoopBodyStart(loop), Inclusive: true, Target: func(q Pt) bool { return q == a }, Avoid: orPt(storesErr, iterEnd)}); f1 {
+			bk = "a recipient is reported as failed without its last error having been stored for the report (the report generator dereferences that entry): " + r.F.Describe(p1)
+		}
+	}
+	c.Hold("R4", "tryDelivery:bookkeeping", lookup.Pos(), bk == "", bk)
 
 	// ---- R5
 	c.Rule("R5", "tryDelivery: whether a failure report is due is decided, and the report handed over, before the message is removed, its metadata rewritten or the retry scheduled", 2)
